@@ -3,7 +3,7 @@
    plus the port and interface-pinning rule, for ANY handlers; lif is the index of the
    interface the listener is bound to (0 = unbound), oob the interface index of the control
    message the request arrived with. *)
-From Verif Require Import Base BaseProofs Net Msg4 Chain ChainProofs Server4 Server4Run Server4Proofs Server4Examples Assembly AssemblyProofs AsmRefine.
+From Verif Require Import Base BaseProofs Net Msg4 Chain ChainProofs Server4 Server4Run Server4Proofs Server4Examples Assembly AssemblyProofs AsmRefine Opt4Codec Msg4Codec Frame Opt4Proofs Msg4CodecProofs FrameProofs.
 Open Scope N_scope.
 
 Theorem dest4_relay :
@@ -142,6 +142,67 @@ Theorem assembled_dest4_relay :
   else None).
 Proof. exact (@AsmRefine.assembled_dest4_relay). Qed.
 Print Assumptions assembled_dest4_relay.
+
+Theorem l2_frame_view :
+  forall (src_mac : bytes) (m : msg4) (p f : bytes),
+  enc_body m = Ok p ->
+  wf_bytes p ->
+  wf_bytes (m_siaddr m) ->
+  wf_bytes (m_yiaddr m) ->
+  enc_frame src_mac m = Ok f ->
+  exists si yi : bytes,
+  to4 (m_siaddr m) = Some si /\
+  to4 (m_yiaddr m) = Some yi /\
+  length f = (42 + length p)%nat /\ dec_frame f = Some (expected_view src_mac m si yi p).
+Proof. exact (@FrameProofs.frame_view). Qed.
+Print Assumptions l2_frame_view.
+
+Theorem l2_frame_ip_checksum :
+  forall tl a0 a1 a2 a3 b0 b1 b2 b3 : N,
+  wf_bytes [a0; a1; a2; a3] ->
+  wf_bytes [b0; b1; b2; b3] ->
+  fold16 (sum16 (ip_hdr tl [a0; a1; a2; a3] [b0; b1; b2; b3])) = 65535.
+Proof. exact (@FrameProofs.ip_checksum_ok). Qed.
+Print Assumptions l2_frame_ip_checksum.
+
+Theorem l2_frame_udp_checksum :
+  forall (a0 a1 a2 a3 b0 b1 b2 b3 : N) (p : bytes),
+  wf_bytes [a0; a1; a2; a3] ->
+  wf_bytes [b0; b1; b2; b3] ->
+  wf_bytes p ->
+  N.of_nat (length p) <= 65507 ->
+  let ulen := 8 + N.of_nat (length p) in
+  fold16
+  (udp_sum [a0; a1; a2; a3] [b0; b1; b2; b3] ulen
+  (udp_hdr [a0; a1; a2; a3] [b0; b1; b2; b3] p ++ p)) = 65535.
+Proof. exact (@FrameProofs.udp_checksum_ok). Qed.
+Print Assumptions l2_frame_udp_checksum.
+
+Theorem l2_frame_payload_is_reply :
+  forall (m : msg4) (p : bytes),
+  wf_msg m -> enc_body m = Ok p -> dec_msg p = Some (wire_msg m) /\ enc_msg m = Ok (pad_min p).
+Proof. exact (@FrameProofs.frame_payload_is_reply). Qed.
+Print Assumptions l2_frame_payload_is_reply.
+
+Theorem l2_frame_error_cases :
+  forall (src_mac : bytes) (m : msg4) (p : bytes),
+  enc_body m = Ok p ->
+  N.of_nat (length p) <= 65507 ->
+  (exists f : bytes, enc_frame src_mac m = Ok f) <->
+  lenb (m_chaddr m) 6 = true /\
+  lenb src_mac 6 = true /\ to4 (m_siaddr m) <> None /\ to4 (m_yiaddr m) <> None.
+Proof. exact (@FrameProofs.frame_error_cases). Qed.
+Print Assumptions l2_frame_error_cases.
+
+Theorem l2_frame_panics_only_with_tobytes :
+  forall (src_mac : bytes) (m : msg4), enc_frame src_mac m = Panic -> enc_body m = Panic.
+Proof. exact (@FrameProofs.frame_panics_only_with_tobytes). Qed.
+Print Assumptions l2_frame_panics_only_with_tobytes.
+
+Theorem checksum_verifies :
+  forall t : N, t + 65535 < 4294967296 -> fold16 (t + csum16 t) = 65535.
+Proof. exact (@FrameProofs.csum_verifies). Qed.
+Print Assumptions checksum_verifies.
 
 (* Non-vacuity (proofs/Server4Examples.v): a DISCOVER through the chain [mark; set yiaddr; stop; mark]
    on an unbound listener is answered by a link-level OFFER on the receiving interface, the fourth
